@@ -45,7 +45,16 @@ DRAFT_IDS = {
     "draft7": "http://json-schema.org/draft-07/schema",
 }
 UNKNOWN = ["http://json-schema.org/draft-09/schema#", "urn:dsim:nobody", "not a uri", "", "http://json-schema.org/draft-07/schema#x",
-           "HTTP://json-schema.org/draft-99/schema"]
+           "HTTP://json-schema.org/draft-99/schema",
+           # near misses of registered ids: well-known URIs that are NOT the id of any registered metaschema
+           "http://json-schema.org/draft-04/hyper-schema#", "http://json-schema.org/draft-03/hyper-schema",
+           "http://json-schema.org/draft-06/hyper-schema#", "http://json-schema.org/draft-07/hyper-schema",
+           "https://json-schema.org/draft-07/schema#", "https://json-schema.org/draft-04/schema",
+           "http://json-schema.org/draft-07/schema/", "http://json-schema.org/draft-04/schema/#",
+           "http://JSON-SCHEMA.ORG/draft-06/schema#", "http://json-schema.org/schema#",
+           "http://json-schema.org/draft-03/schema?v=1", "//json-schema.org/draft-07/schema#",
+           "http://json-schema.org/draft-04/schema#/definitions", "http://www.json-schema.org/draft-04/schema#",
+           "http://json-schema.org/draft/2019-09/schema", "http://json-schema.org/draft-4/schema#"]
 BATTERY = [
     ({"minimum": 5, "exclusiveMinimum": True}, 5),
     ({"exclusiveMinimum": 5}, 5),
